@@ -1497,7 +1497,7 @@ class Server:
         if connection.future.passive_server_starting.done():
             # a pipelined PASV/EPSV is opening the listener right now: there
             # is one listener per session, wait for that one
-            await connection.future.passive_server
+            await asyncio.shield(connection.future.passive_server)
         if not connection.future.passive_server.done():
             coro = self._start_passive_server(connection, handler)
             connection.passive_server_starting = True
@@ -1551,7 +1551,7 @@ class Server:
             connection.response(code, info)
             return False
         if connection.future.passive_server_starting.done():
-            await connection.future.passive_server
+            await asyncio.shield(connection.future.passive_server)
         if not connection.future.passive_server.done():
             coro = self._start_passive_server(connection, handler)
             connection.passive_server_starting = True
